@@ -65,12 +65,14 @@ func H_accept() {
 	check := vParamString("check")
 	root, ok := rParseSpec(spec)
 	vAssert(ok, "family spec is not well-formed for the reference")
+	shared := vParamInt("shared") == 1 // -o/-e and X/Y declared with one shared non-empty default slice
+	vResetShared()
 	argv := vArgvFor(vParamString("profile"))
 	vNoHelp(argv)
 	for _, t := range argv {
 		vAssume(!vFoldEq(t))
 	}
-	out := vRunTable(vAppCfg{spec: spec, policy: flag.ContinueOnError}, argv)
+	out := vRunTable(vAppCfg{spec: spec, policy: flag.ContinueOnError, shared: shared}, argv)
 	vObserveOutcome("impl", out)
 
 	m := &rMatcher{strictDash: true, hasEnd: rHasEnd(root)}
@@ -96,7 +98,7 @@ func H_accept() {
 		vCover("rejected")
 	}
 	if (out.ran == 1) != refAccept {
-		if check != "C01" {
+		if check != "C01" && check != "C09" {
 			return // acceptance is C01's assertion
 		}
 		if out.ran == 0 && len(argv) > 0 && argv[len(argv)-1] == "--" && vKnownFinding("F1") {
@@ -105,8 +107,15 @@ func H_accept() {
 		}
 		vAssert(false, "C01: Action ran iff reference accepts: violated")
 	}
-	if out.ran != 1 || check != "C02" {
+	if out.ran != 1 || (check != "C02" && check != "C09") {
 		return
+	}
+	// a parameter without command-line values keeps its declared default
+	dflt := func(vs []string) []string {
+		if len(vs) == 0 && shared {
+			return []string{"p", "q"}
+		}
+		return vs
 	}
 	// C02: the bound values are those of one accepting derivation
 	found := false
@@ -115,8 +124,8 @@ func H_accept() {
 		if !okc {
 			continue
 		}
-		if out.a == a && out.b == b && vEqStrs(out.o, d.opts[oO]) && vEqStrs(out.e, d.opts[oE]) &&
-			vEqStrs(out.x, d.args[0]) && vEqStrs(out.y, d.args[1]) {
+		if out.a == a && out.b == b && vEqStrs(out.o, dflt(d.opts[oO])) && vEqStrs(out.e, dflt(d.opts[oE])) &&
+			vEqStrs(out.x, dflt(d.args[0])) && vEqStrs(out.y, dflt(d.args[1])) {
 			found = true
 			break
 		}
@@ -125,4 +134,7 @@ func H_accept() {
 		vCover("ambiguous")
 	}
 	vAssert(found, "C02: bound values are not those of any accepting derivation")
+	if shared {
+		vAssert(vEqStrs(vSharedDefault, []string{"p", "q"}), "C02: the library wrote through a default slice it was given")
+	}
 }
